@@ -117,6 +117,17 @@ def gen_net(rng, deep: bool = False) -> Net:
                 cat = rng.choice(list(r))
                 p[cat] = r[cat]  # catalyst
             net.append({"id": None, "rule": rng.choice(["r", "r", "R1"]), "r": r, "p": p})
+    if rng.random() < 0.12 and net:
+        rx = rng.choice(net)
+        side_ = rng.choice(["r", "p"])
+        if rx["r"] and rx["p"]:
+            rx[side_] = {}                       # source / sink reaction
+    if rng.random() < 0.08 and net:
+        rx = rng.choice(net)
+        for side_ in ("r", "p"):
+            for sp_ in list(rx[side_]):
+                if rng.random() < 0.5:
+                    rx[side_][sp_] = rng.choice([10, 12, 20])   # multi-digit coefficients
     net = [rx for rx in net if rx["r"] or rx["p"]][:(6 if deep else 5)]
     if not net:
         net = [{"id": None, "rule": "r", "r": {"A": 1}, "p": {"B": 1}}]
@@ -127,7 +138,9 @@ ALL_SPECIES = [chr(ord("A") + i) for i in range(6)]
 
 
 def twin_map(rng) -> Dict[str, str]:
-    names = ["Q%d" % i for i in range(len(ALL_SPECIES))] if rng.random() < 0.5 else list(ALL_SPECIES)
+    c = rng.random()
+    names = (["Q%d" % i for i in range(len(ALL_SPECIES))] if c < 0.4 else
+             [x.lower() for x in ALL_SPECIES] if c < 0.55 else list(ALL_SPECIES))
     rng.shuffle(names)
     return dict(zip(ALL_SPECIES, names))
 
